@@ -430,6 +430,10 @@ RULE = ("dependency graphs over <=3 resources (sync/async factories with an inne
         "retried) x all interleavings of factory and step suspension points; factory call "
         "counts, identities of injected objects and cycle errors are compared with the documented caching rules; "
         "non-trivial = at least one schedule deviation")
+from vmc.tables import _ROUND6 as _R6  # noqa: E402
+
+RULE += _R6["C22"]
+
 
 
 def run(tier: str, seed: int) -> Any:
